@@ -62,15 +62,26 @@ def _intact() -> Tuple[World, R]:
 
 
 def tolerated_class(repo: Repo) -> Tuple[str, ast.ExceptHandler, ast.Try]:
+    """the exception class caught around thunk.to_trace() in get_stub (or in a helper of cli.py it calls)"""
     gs = repo.fn(CLI, "get_stub")
-    for t in [x for x in walk_no_nested(gs.node) if isinstance(x, ast.Try)]:
-        if any(isinstance(c.func, ast.Attribute) and c.func.attr == "to_trace" for s in t.body for c in calls_in(s)):
-            if len(t.handlers) != 1:
-                raise AnalysisError("get_stub: the decoding try has not exactly one handler")
-            h = t.handlers[0]
-            if h.type is None:
-                return "BaseException", h, t
-            return (dotted(h.type) or norm(h.type)).split(".")[-1], h, t
+    todo, seen = [gs], set()
+    while todo:
+        fi = todo.pop(0)
+        if fi.fq in seen:
+            continue
+        seen.add(fi.fq)
+        for t in [x for x in walk_no_nested(fi.node) if isinstance(x, ast.Try)]:
+            if any(isinstance(c.func, ast.Attribute) and c.func.attr == "to_trace" for s in t.body for c in calls_in(s)):
+                if len(t.handlers) != 1:
+                    raise AnalysisError("get_stub: the decoding try has not exactly one handler")
+                h = t.handlers[0]
+                if h.type is None:
+                    return "BaseException", h, t
+                return (dotted(h.type) or norm(h.type)).split(".")[-1], h, t
+        for c in calls_in(fi.node):
+            callee = repo.resolve_callee(fi, c)
+            if callee is not None and callee.module.name == CLI:
+                todo.append(callee)
     raise AnalysisError("get_stub: no try block around thunk.to_trace()")
 
 
@@ -164,7 +175,7 @@ def rule_get_stub(ctx: Ctx, repo: Repo) -> None:
                         st.pending = st.pending or o
                         return U("stale")
                     if fname == "print":
-                        _p.append(("print", kw.get("file", K("stdout"))))
+                        _p.append(("print", kw.get("file", K("stdout")), st.freeze(a[0]) if a else K("")))
                         return K(None)
                     if fname == "build_module_stubs_from_traces":
                         _b.append(st.freeze(a[0]))
@@ -204,51 +215,148 @@ def rule_get_stub(ctx: Ctx, repo: Repo) -> None:
                     ctx.check(len(err) == (1 if bad else 0) and len(prints) == len(err), "R-C10.1", gs.fq,
                               "without -v the number of skipped rows is reported once on the error stream (and only if some were skipped)",
                               construct=f"{lab}: {len(err)} message(s) for {len(bad)} skipped row(s)")
-    # the summary carries the count
-    cnt = [x for x in ast.walk(gs.node) if isinstance(x, ast.JoinedStr) and any(isinstance(v, ast.FormattedValue) for v in x.values)]
-    names = {dotted(v.value) for x in cnt for v in x.values if isinstance(v, ast.FormattedValue)}
-    incs = [x for x in ast.walk(handler) if isinstance(x, ast.AugAssign) and isinstance(x.op, ast.Add) and isinstance(x.value, ast.Constant) and x.value.value == 1]
-    ctx.check(len(incs) == 1 and dotted(incs[0].target) in names, "R-C10.1", gs.fq, "the reported number is the counter incremented once per skipped row",
-              construct=f"counter {[norm(i) for i in incs]}; formatted {sorted(n for n in names if n)}")
+                    if bad and len(err) == 1:
+                        msg = err[0][2]
+                        if not (isinstance(msg, K) and isinstance(msg.v, str)):
+                            raise AnalysisError(f"get_stub: the summary message is not a foldable string ({msg})")
+                        import re as _re
+                        ctx.check(str(len(bad)) in _re.findall(r"\d+", msg.v), "R-C10.1", gs.fq,
+                                  "the reported number is the number of skipped rows", construct=f"{lab}: message {msg.v!r}")
 
 
 def rule_status(ctx: Ctx, repo: Repo) -> None:
-    for hname, none_src in (("print_stub_handler", "output"), ("apply_stub_handler", "stub")):
+    """The handlers and main are interpreted: nothing to show -> the no-traces message on the error stream, nothing on
+    stdout, normal return; main turns a normal return of the handler into status 0."""
+    from .cli_model import CliScenario
+    # --- print_stub_handler / apply_stub_handler
+    for hname in ("print_stub_handler", "apply_stub_handler"):
         h = repo.fn(CLI, hname)
         ctx.functions.add(h.fq)
-        g = cfg_of(h)
-        cs = g.find_calls(lambda c: dotted(c.func) == "complain_about_no_traces")
-        ctx.check(len(cs) == 1, "R-C10.4", h.fq, "the handler has one no-traces message site", construct=f"{len(cs)} calls")
-        for n, c in cs:
-            guards = [(norm(a.ast), pol) for a, pol in g.guards(n.id)]
-            ok = any(txt == f"{none_src} is None" and pol for txt, pol in guards)
-            ctx.check(ok, "R-C10.4", h.fq, "the no-traces message is printed exactly when there is nothing to show", construct=f"guards {guards}")
-            succ = g.reach(n.id)
-            ctx.check(g.rexit not in succ and g.exit in succ, "R-C10.4", h.fq, "after the message the handler returns normally (success status)", construct=norm(c))
-        raises = [x for x in walk_no_nested(h.node) if isinstance(x, ast.Raise)]
-        ctx.check(not raises, "R-C10.4", h.fq, "the handler itself raises nothing on the no-traces path", construct="; ".join(norm(r) for r in raises))
+        ps = h.positional_params()
+        variants = [(d, have) for d in ((False, True) if hname == "print_stub_handler" else (False,)) for have in (False, True)]
+        for diff, have in variants:
+            log: List[Tuple[Any, ...]] = []
+
+            def hook(call, fname, fval, a, kw, st, _l=log, _have=have):
+                m = call.func.attr if isinstance(call.func, ast.Attribute) else None
+                if fname == "get_stub":
+                    return R("stub") if _have else K(None)
+                if fname == "get_diff":
+                    return K("DIFFTEXT") if _have else K(None)
+                if m == "render" and isinstance(fval, R) and fval.kind == "stub":
+                    return K("STUBTEXT")
+                if fname == "complain_about_no_traces":
+                    _l.append(("complain", tuple(st.freeze(x) for x in a)))
+                    return K(None)
+                if fname == "print":
+                    _l.append(("print", tuple(st.freeze(x) for x in a), st.freeze(kw.get("file", K("sys.stdout")))))
+                    return K(None)
+                if fname == "apply_stub_using_libcst":
+                    _l.append(("apply",))
+                    return K("SOURCE")
+                if m in ("write_text",):
+                    _l.append(("write",))
+                    return K(None)
+                if fname in ("importlib.import_module", "inspect.getfile", "Path") or m in ("read_text",):
+                    return R("opaque", what=K(fname or m))
+                return None
+
+            sc = CliScenario(repo, CLI, hname, hook)
+            args = R("args", module_path=K((K("pkg.mod"), K(None))), diff=K(diff), existing_annotation_strategy=S("strategy"), pep_563=K(False),
+                     ignore_existing_annotations=K(False), config=S("config"), verbose=K(False), limit=K(10), disable_type_rewriting=K(False), sample_count=K(False))
+            o = sc.run({ps[0]: args, ps[1]: K("stdout"), ps[2]: K("stderr")})
+            lab = f"{hname} diff={diff} traces={'some' if have else 'none'}"
+            comp_ = [e for e in log if e[0] == "complain"]
+            out_ = [e for e in log if e[0] == "print" and e[2] == K("stdout")]
+            if not have:
+                ok = len(comp_) == 1 and comp_[0][1] == (args, K("stderr")) and not out_ and not [e for e in log if e[0] in ("apply", "write")] \
+                    and (o.term is None or o.term[0] == "return")
+                ctx.check(ok, "R-C10.4", h.fq, "nothing to show: the no-traces message goes to the error stream once, nothing is printed or written, and the handler returns normally (success status)",
+                          construct=f"{lab}: {[e[0] for e in log]}, ends {o.term}")
+            else:
+                ok = not comp_ and len(out_) == 1 and (o.term is None or o.term[0] == "return")
+                ctx.check(ok, "R-C10.4", h.fq, "the no-traces message is printed exactly when there is nothing to show",
+                          construct=f"{lab}: {[e[0] for e in log]}, ends {o.term}")
+    # --- complain_about_no_traces: every variant says 'No traces found' on the given stream
     comp = repo.fn(CLI, "complain_about_no_traces")
-    prints = [c for c in calls_in(comp.node) if dotted(c.func) == "print"]
-    ok = len(prints) >= 1 and all(any(k.arg == "file" and dotted(k.value) == comp.positional_params()[1] for k in c.keywords) for c in prints) and \
-        all("No traces found" in "".join(str(v.value) for v in ast.walk(c) if isinstance(v, ast.Constant) and isinstance(v.value, str)) for c in prints)
-    ctx.check(ok, "R-C10.4", comp.fq, "complain_about_no_traces says 'No traces found' on the error stream on every path", construct=f"{len(prints)} print sites")
-    g = cfg_of(comp)
-    ctx.check(all(any(n.id in [x for x, _ in p] for n, _ in g.find_calls(lambda c: dotted(c.func) == "print")) for p in g.paths()), "R-C10.4", comp.fq,
-              "every path through complain_about_no_traces prints", construct=f"{len(g.paths())} paths")
+    ctx.functions.add(comp.fq)
+    cps = comp.positional_params()
+    for qual in (K(None), K("C.m")):
+        for exists in (False, True):
+            msgs: List[Tuple[Any, Any]] = []
+
+            def hook2(call, fname, fval, a, kw, st, _m=msgs, _e=exists):
+                if fname == "print":
+                    _m.append((st.freeze(a[0]) if a else K(""), st.freeze(kw.get("file", K("sys.stdout")))))
+                    return K(None)
+                if fname == "os.path.exists":
+                    return K(_e)
+                return None
+
+            sc = CliScenario(repo, CLI, "complain_about_no_traces", hook2)
+            args = R("args", module_path=K((K("pkg/mod.py") if exists else K("pkg.mod"), qual)))
+            o = sc.run({cps[0]: args, cps[1]: K("stderr")})
+            ok = len(msgs) == 1 and msgs[0][1] == K("stderr") and isinstance(msgs[0][0], K) and isinstance(msgs[0][0].v, str) and "No traces found" in msgs[0][0].v \
+                and (o.term is None or o.term[0] == "return")
+            ctx.check(ok, "R-C10.4", comp.fq, "complain_about_no_traces says 'No traces found' on the error stream on every path",
+                      construct=f"qualname={qual} path-exists={exists}: {msgs}")
+    # --- main: exit status
     main = repo.fn(CLI, "main")
     ctx.functions.add(main.fq)
-    gm = cfg_of(main)
-    for n, val in returns_of(main):
-        if isinstance(val, ast.Constant) and val.value == 0:
-            continue
-        guards = [(norm(a.ast), pol) for a, pol in gm.guards(n.id)]
-        in_handler = any(isinstance(hd, ast.ExceptHandler) and (dotted(hd.type) or "").endswith("HandlerError") and n.ast in list(ast.walk(hd)) for hd in ast.walk(main.node))
-        ok = in_handler or ("handler is None", True) in guards
-        ctx.check(ok, "R-C10.4", main.fq, "a non-zero exit status is produced only for HandlerError or a missing command", construct=f"{norm(n.ast)} under {guards}")
-    rets0 = [n for n, v in returns_of(main) if isinstance(v, ast.Constant) and v.value == 0]
-    ctx.check(len(rets0) >= 1, "R-C10.4", main.fq, "main returns 0 after a handler that returned normally", construct=f"{len(rets0)} `return 0`")
-    # HandlerError is not a MonkeyTypeError and decode errors are not HandlerErrors
+    mps = main.positional_params()
     hier = exception_hierarchy(repo)
+    for outcome in ("ok", "HandlerError", "no-command", "NameLookupError"):
+        log2: List[Tuple[Any, ...]] = []
+
+        def hook3(call, fname, fval, a, kw, st, _l=log2, _o=outcome):
+            m = call.func.attr if isinstance(call.func, ast.Attribute) else None
+            if m == "parse_args":
+                fields: Dict[Any, Any] = {"config": K("monkeytype.config:get_default_config()"), "command": K("stub"), "limit": K(None)}
+                if _o != "no-command":
+                    fields["handler"] = R("handler_fn")
+                return st.alloc("obj", fields)
+            if fname == "getattr" and len(a) == 3 and isinstance(a[0], Ref) and isinstance(a[1], K):
+                return st.deref(a[0]).get(a[1].v, a[2])
+            if fname in ("get_monkeytype_config",):
+                return S("config")
+            if fname in ("update_args_from_config",):
+                return K(None)
+            if isinstance(fval, R) and fval.kind == "handler_fn":
+                _l.append(("handler", tuple(a)))
+                if _o != "ok":
+                    st.pending = st.pending or _o
+                    return U("handler raised")
+                return K(None)
+            if fname == "print":
+                _l.append(("print", st.freeze(kw.get("file", K("sys.stdout")))))
+                return K(None)
+            if m == "print_help":
+                _l.append(("help",))
+                return K(None)
+            if m == "cli_context":
+                return R("opaque", what=K("cli_context"))
+            return None
+
+        sc = CliScenario(repo, CLI, "main", hook3)
+        try:
+            o = sc.run({mps[0]: S("argv"), mps[1]: K("stdout"), mps[2]: K("stderr")})
+        except AnalysisError as e:
+            raise AnalysisError(f"main could not be interpreted ({e})")
+        lab = f"handler outcome {outcome}"
+        if outcome == "ok":
+            ctx.check(o.term is not None and o.term[0] == "return" and o.term[1] == K(0) and [e[0] for e in log2] == ["handler"], "R-C10.4", main.fq,
+                      "main returns 0 after a handler that returned normally", construct=f"{lab}: {o.term}, {[e[0] for e in log2]}")
+        elif outcome == "HandlerError":
+            ok = o.term is not None and o.term[0] == "return" and isinstance(o.term[1], K) and o.term[1].v not in (0, None) and ("print", K("stderr")) in log2
+            ctx.check(ok, "R-C10.4", main.fq, "a HandlerError becomes an error message and a non-zero status", construct=f"{lab}: {o.term}, {log2}")
+        elif outcome == "no-command":
+            ok = o.term is not None and o.term[0] == "return" and isinstance(o.term[1], K) and o.term[1].v not in (0, None) and not [e for e in log2 if e[0] == "handler"]
+            ctx.check(ok, "R-C10.4", main.fq, "a missing command gives usage help and a non-zero status", construct=f"{lab}: {o.term}, {log2}")
+        else:
+            ok = o.term is not None and o.term[0] == "raise"
+            ctx.check(ok, "R-C10.4", main.fq, "a non-zero exit status is produced only for HandlerError or a missing command (other errors are not converted into status 1)",
+                      construct=f"{lab}: {o.term}")
+    # HandlerError is not a MonkeyTypeError and decode errors are not HandlerErrors
     ctx.check(not exc_is("NameLookupError", "HandlerError", hier) and not exc_is("InvalidTypeError", "HandlerError", hier), "R-C10.4", CLI,
               "decode failures are not HandlerErrors (they cannot turn into exit status 1)", construct=str({k: v for k, v in hier.items()}))
 
